@@ -38,21 +38,28 @@ Definition replay_force (recs : list irec) (i : nat) (_ : Qc) (_ : list vec) (v 
 Definition mods (cs : list (option vec)) (fx : list bool) : list (module unit) :=
   map (fun cf => mkMod (fst cf) (snd cf) tt) (combine cs fx).
 
-(* one run of fruchterman_reingold_layout:
+(* one run of fruchterman_reingold_layout as recorded by the hook:
    cs/fx   the centres and fixed flags of the input netlist
-   recs    the recorded iterations (exactly max_iter of them), final the recorded final positions
-   out     the centres of the returned netlist *)
-Definition run_ok (W H tol : Qc) (max_iter : nat) (cs : list (option vec)) (fx : list bool)
-           (recs : list irec) (final : list vec) (out : list vec) : bool :=
+   recs    the recorded iterations (exactly max_iter of them), final the recorded final positions *)
+Definition trace_ok (W H tol : Qc) (max_iter : nat) (cs : list (option vec)) (fx : list bool)
+           (recs : list irec) (final : list vec) : bool :=
   let nl := mkNl (mods cs fx) tt in
   let first := match recs with r :: _ => r_pos r | [] => final end in
+  Nat.eqb (length cs) (length fx) &&
   Nat.eqb (length recs) max_iter &&
   list_eqb (vclose tol) (map (recentre W H) (modules nl)) first &&
   temps_ok tol (t_init W H) (dt_of W H max_iter) recs &&
   steps_ok W H tol fx recs final &&
-  (* the whole model, end to end, with the recorded forces *)
-  list_eqb (vclose tol) (final_pos (replay_force recs) W H max_iter nl) final &&
-  list_eqb (opt_eqb (vclose tol)) (map centre (modules (fr_layout (replay_force recs) W H max_iter nl))) (map Some out) &&
+  (* the whole model loop, end to end, with the recorded forces *)
+  list_eqb (vclose tol) (final_pos (replay_force recs) W H max_iter nl) final.
+
+(* ... and the centres / fixed flags of the netlist it returned *)
+Definition run_ok (W H tol : Qc) (max_iter : nat) (cs : list (option vec)) (fx : list bool)
+           (recs : list irec) (final : list vec) (out : list vec) : bool :=
+  let nl := mkNl (mods cs fx) tt in
+  trace_ok W H tol max_iter cs fx recs final &&
+  list_eqb (opt_eqb (vclose tol)) (map centre (modules (fr_layout (replay_force recs) W H max_iter nl)))
+           (map Some out) &&
   list_eqb Bool.eqb (map is_fixed (modules (fr_layout (replay_force recs) W H max_iter nl))) fx.
 
 (* force_algorithm: the recorded (kappa, cost) list in the order tried, and the kappa
